@@ -1,3 +1,5 @@
 import RV.AuditCmd
 import RV.Drive.All
 import RV.Props.C07
+import RV.Props.C17
+import RV.Props.C18
